@@ -6,7 +6,7 @@
            e<id>:<bytes>  managed error value, message <bytes>    -> `ok` | `viol`
            s<id>:<bytes>  managed ASCII string value              -> `ok` | `viol`
            d<id>          drop                                    -> `ok` | `noop`
-           p<n>           can_allocate(n)                         -> `ok` | `viol` | `panic`
+           p<n>           can_allocate(n)                         -> `ok` | `viol`
        answer: `<outcome>,<size after>;…|<size before cleanup>|<underflows>`
   alloc size <xvalue>,<bigint>,<fenced>,<usize> <kind> <n>…   -> `<XValue::size> <payload>` of a value shape
   The shape of `allocate` (does it roll back?) is the one generated from the sources.
@@ -49,7 +49,7 @@ def allocStepShow (sh : AllocShape) (r : Run) (k : Char) (e : Ev) : Run × Strin
       else "ok"
     | .drop id => if (r.live.lookup id).isSome then "ok" else "noop"
     | .preflight _ =>
-      if r'.viols > r.viols then "viol" else if r'.overflows > r.overflows then "panic" else "ok"
+      if r'.viols > r.viols then "viol" else "ok"
   (r', s!"{out},{r'.st.size}")
 
 def allocEngine (f : String) (args : List String) : String :=
